@@ -68,6 +68,29 @@ fn mk(r: &mut StdRng) -> Vec<u8> {
             2 => { m.extend_from_slice(&[0, 15, 0, 1, 0x80, 0, 0, 1]); m.extend_from_slice(&[0, 5, 0, 10, 1, b'm', 0]); }
             3 => { m.extend_from_slice(&[0, 2, 0, 1, 0, 0, 0, 60, 0, 0]); } // NS with RDLENGTH 0 (embedded name at the end of the RDATA)
             4 => { m.extend_from_slice(&[0, 33, 0, 1, 0, 0, 0, 9, 0, 9, 0, 1, 0, 2, 0, 3, 1, b's', 0]); }
+            _ if r.gen_bool(0.6) => {
+                // OPT with options (lengths up to the top of the 16-bit range) / TSIG with algorithm names of 253..257 octets
+                if r.gen_bool(0.5) {
+                    let mut rd = Vec::new();
+                    for _ in 0..r.gen_range(0..3) {
+                        let l: u16 = *[0u16, 1, 3, 0xfffb, 0xfffc, 0xfffd, 0xffff].choose(r).unwrap();
+                        rd.extend_from_slice(&[0, 10]);
+                        rd.extend_from_slice(&l.to_be_bytes());
+                        for _ in 0..(l.min(4)) { rd.push(1); }
+                    }
+                    // owner = root: replace the owner written above by rebuilding the record tail
+                    push_rr(&mut m, 41, 1232, &rd);
+                } else {
+                    let total = *[253usize, 254, 255, 255, 256, 257].choose(r).unwrap();
+                    let mut alg = Vec::new();
+                    let mut left = total - 1;
+                    while left > 1 { let ll = (left - 1).min(63); alg.push(ll as u8); for _ in 0..ll { alg.push(b'g'); } left -= ll + 1; }
+                    alg.push(0);
+                    let mut rd = alg;
+                    rd.extend_from_slice(&[0, 0, 0, 0, 0, 9, 1, 44, 0, 2, 7, 7, 0, 1, 0, 0, 0, 0]);
+                    push_rr(&mut m, 250, 255, &rd);
+                }
+            }
             _ if r.gen_bool(0.5) => {
                 // class CH type A (a name, usually compressed, and a 16-bit address), SRV in and outside class IN
                 let mut rd = rd_name(r, qd);
